@@ -88,10 +88,10 @@ fn ec_fields(t: &SolarTime) -> (i64, i64, i64, i64, i64, i64) {
 
 fn compositions(ctx: &Ctx, sink: &mut Sink) {
   let mut rng = ctx.rng(901);
-  let n = if ctx.quick() { 15000 } else { 90000 };
+  let n = if ctx.quick() { 15000 } else { 450000 };
   // the early centuries between the reform seams (the seams themselves, AD 9, 24-25 and 237-240, are C02 findings, not
   // eight-character defects): year 1 from the first day every view supports, AD 10-23 where the lunar months run early
-  let early: Vec<(i64, i64)> = [((1, 1, 7), (8, 12, 1)), ((9, 2, 1), (23, 12, 1)), ((25, 3, 1), (236, 12, 1)), ((240, 3, 1), (259, 12, 31))].iter().filter_map(|(a, b)| {
+  let early: Vec<(i64, i64)> = [((1, 1, 9), (8, 10, 25)), ((9, 2, 1), (23, 12, 1)), ((25, 3, 1), (236, 12, 1)), ((240, 3, 1), (259, 12, 31))].iter().filter_map(|(a, b)| {
     let ja = catch(|| jdn_of(tyme4rs::tyme::solar::SolarDay::from_ymd(a.0, a.1, a.2).get_julian_day().get_day()).0)?;
     let jb = catch(|| jdn_of(tyme4rs::tyme::solar::SolarDay::from_ymd(b.0, b.1, b.2).get_julian_day().get_day()).0)?;
     Some((ja, jb))
@@ -178,7 +178,7 @@ fn catalogue_rolls(sink: &mut Sink) {
 
 fn searches(ctx: &Ctx, sink: &mut Sink) {
   let mut rng = ctx.rng(902);
-  let n = if ctx.quick() { 1200 } else { 6000 };
+  let n = if ctx.quick() { 1200 } else { 18000 };
   let mut done = 0;
   let mut guard = 0;
   while done < n && guard < n * 4 {
